@@ -343,16 +343,26 @@ def prEvents (q : String → String) : Option (List (String × String)) → List
   | some attrs => [.start (q "workbookPr") attrs, .end_ (q "workbookPr")]
   | none => []
 
-/-- the events of `xl/workbook.xml`: `<workbook> [<workbookPr …/>] <sheets>…</sheets> [<definedNames>…</definedNames>] </workbook>` -/
+/-- an optional extension list `<extLst> … </extLst>` with arbitrary content -/
+def extEvents (q : String → String) : Option (List Ev) → List Ev
+  | some body => .start (q "extLst") [] :: (body ++ [.end_ (q "extLst")])
+  | none => []
+
+/-- the content of an extension list: any events (elements of any namespace and any local name — `x15:workbookPr`,
+    `x14:definedName`, a foreign `sheet` —, text, comments) that neither open nor close an element with the qualified
+    name `n` of the list itself -/
+def ExtOk (n : String) (body : List Ev) : Prop := ∀ e ∈ body, (∀ a, e ≠ Ev.start n a) ∧ e ≠ Ev.end_ n
+
+/-- the events of `xl/workbook.xml`: `<workbook> [<workbookPr …/>] <sheets>…</sheets> <definedNames>…</definedNames> [<extLst>…</extLst>] </workbook>` -/
 def workbookEvents (q : String → String) (ridKey : String) (pr : Option (List (String × String)))
-    (sheets : List XSheet) (names : List (String × List String)) : List Ev :=
+    (sheets : List XSheet) (names : List (String × List String)) (ext : Option (List Ev) := none) : List Ev :=
   .start (q "workbook") [] ::
     (prEvents q pr ++
      (.start (q "sheets") [] ::
        (sheets.flatMap (sheetEvents q ridKey) ++
          (.end_ (q "sheets") ::
            (.start (q "definedNames") [] ::
-             (names.flatMap (definedNameEvents q) ++ [.end_ (q "definedNames"), .end_ (q "workbook")]))))))
+             (names.flatMap (definedNameEvents q) ++ (.end_ (q "definedNames") :: (extEvents q ext ++ [.end_ (q "workbook")]))))))))
 
 /-! ### what the xlsx theorems assume and promise -/
 
